@@ -3,6 +3,7 @@ import RainModel.Lemmas.ResourceManager
 import RainModel.Model.WebseedCap
 import RainModel.Model.TokenBucket
 import RainModel.Lemmas.TokenBucket
+import RainModel.Model.Semaphore
 /-!
 C17 — configured resource limits hold at all times and reservations balance.
 Property theorems only; helper lemmas live in `Lemmas/`.
@@ -39,6 +40,24 @@ example : grun (ginit 10)
     .ok { s := { limit := 10, available := 10, objects := 0, requests := [] },
           out := [], granted := [2, 3, 1], seen := [4, 3, 2, 1] } := by
   decide
+
+/-- **rm_no_double_grant.** In every history (requests carry fresh identities) a request is
+granted at most once — either at once by `handleRequest` or later through the notify branch,
+never both and never twice: the list of grant events has no duplicate identity, no granted
+identity is still pending (so `deleteRequest`'s swap-remove took out exactly the notified
+request), and no identity is queued twice. -/
+theorem rm_no_double_grant (limit : Int) (es : List Event) (g : G)
+    (h : grun (ginit limit) es = .ok g) :
+    g.granted.Nodup ∧ (pendingIds g).Nodup ∧ (∀ id ∈ g.granted, id ∉ pendingIds g) := by
+  have hi := grun_once es (OnceInv.init limit) g h
+  refine ⟨?_, ?_, ?_⟩
+  · rw [List.nodup_iff_count]; intro a; have := hi.once a; omega
+  · rw [List.nodup_iff_count]; intro a; have := hi.once a; omega
+  · intro id hid hp
+    have h1 : 0 < List.count id g.granted := List.count_pos_iff.mpr hid
+    have h2 : 0 < List.count id (pendingIds g) := List.count_pos_iff.mpr hp
+    have := hi.once id
+    omega
 
 /-- The hypothesis is needed: releasing an amount twice reaches `panic("invalid release call")`
 in the un-instrumented machine. -/
@@ -137,5 +156,56 @@ example : (run { capacity := 8, quantum := 4, fillInterval := 10, availableToken
     [⟨3, 20⟩, ⟨5, 1⟩, ⟨61, 8⟩]).2 = [⟨61, 8⟩, ⟨40, 1⟩, ⟨30, 20⟩] := by decide
 
 end Bucket
+
+
+/-! ### Parallel read / write semaphore -/
+section Sem
+open Rain.Semaphore (Act)
+
+/-- Inductive invariant of the semaphore protocol. -/
+def SemInv (s : Rain.Semaphore.State) : Prop :=
+  s.cur = s.acq + s.w3 + s.holding ∧ s.cur ≤ s.n ∧ s.waiting = s.w1 + s.acq ∧ s.active = s.holding + s.rel
+
+theorem semInv_step (s s' : Rain.Semaphore.State) (a : Act) (h : SemInv s) (hs : Rain.Semaphore.step s a = some s') : SemInv s' := by
+  obtain ⟨h1, h2, h3, h4⟩ := h
+  cases a <;> simp only [Rain.Semaphore.step] at hs <;> split at hs <;> first | cases hs | skip
+  all_goals
+    refine ⟨?_, ?_, ?_, ?_⟩ <;> simp only <;> omega
+
+/-- **semaphore_bound.** For every size `n ≥ 0`, every number of goroutines and every interleaving
+of their atomic steps: the number of goroutines between the return of `Wait` and their call of
+`Signal` never exceeds `n` (nor does the library's count), the `waiting` and `active` metrics
+never go negative, and `Len()` (`active`) exceeds `n` by at most the number of goroutines that
+are inside `Signal` between `Release` and the metric update. -/
+theorem semaphore_bound (n : Int) (hn : 0 ≤ n) (k : Nat) (acts : List Act) (s : Rain.Semaphore.State)
+    (h : Rain.Semaphore.run (Rain.Semaphore.init n k) acts = some s) :
+    (s.holding : Int) ≤ n ∧ s.cur ≤ n ∧ 0 ≤ s.cur ∧ 0 ≤ s.waiting ∧ 0 ≤ s.active ∧ s.active ≤ n + s.rel ∧ s.n = n := by
+  have key : ∀ (acts : List Act) (s0 s : Rain.Semaphore.State), SemInv s0 → Rain.Semaphore.run s0 acts = some s → SemInv s ∧ s.n = s0.n := by
+    intro acts
+    induction acts with
+    | nil => intro s0 s hi hr; simp [Rain.Semaphore.run] at hr; subst hr; exact ⟨hi, rfl⟩
+    | cons a as ih =>
+      intro s0 s hi hr
+      simp only [Rain.Semaphore.run] at hr
+      cases hs : Rain.Semaphore.step s0 a with
+      | none => rw [hs] at hr; cases hr
+      | some s1 =>
+        rw [hs] at hr
+        obtain ⟨hi', hn'⟩ := ih s1 s (semInv_step s0 s1 a hi hs) hr
+        refine ⟨hi', hn'.trans ?_⟩
+        cases a <;> simp only [Rain.Semaphore.step] at hs <;> split at hs <;> first | cases hs | skip
+        all_goals rfl
+  have h0 : SemInv (Rain.Semaphore.init n k) := by
+    refine ⟨?_, ?_, ?_, ?_⟩ <;> simp [Rain.Semaphore.init] <;> omega
+  obtain ⟨⟨h1, h2, h3, h4⟩, h5⟩ := key acts (Rain.Semaphore.init n k) s h0 h
+  have h6 : s.n = n := h5
+  refine ⟨?_, ?_, ?_, ?_, ?_, ?_, h6⟩ <;> omega
+
+/-- Non-vacuity, and the metric overshoot is real: size 1, two goroutines; the second acquires
+right after the first released and updates `active` before the first one does: `Len() = 2 > 1`. -/
+example : (Rain.Semaphore.run (Rain.Semaphore.init 1 2) [.waitInc, .acquire, .waitDec, .activeInc, .waitInc, .release, .acquire, .waitDec, .activeInc]).map
+    (fun s => (s.active, s.holding, s.cur)) = some (2, 1, 1) := by decide
+
+end Sem
 
 end Rain.Props.C17
